@@ -37,6 +37,13 @@ MISSED = {  # seed -> (round, what the miss changed)
  'C04_closed-rule-domain': ('4', "new domain taken from the mapped extreme nodes when they are `np.isclose` to the domain ends: wrong for large open rules (n ≳ 400). Pinned cases with GaussChebyshev(450), GaussChebyshevType2(450), GaussLegendre(600), FejerFirst(500) were added (the generator stays at n ≤ 81: a directed addition, not a generator class)."),
  'C15_ivp-y0-inplace': ('4', "`solve_ode_ivp` writes the transformed initial derivatives back into the caller's float64 `y0` array. With `as_array` the same `y0` array is now shared by the transformed and the direct solve of a case and must come back untouched (C20's registry passes `y0` too, but only without a transform)."),
  'C16_bvp-eval-memo': ('4', "the per-atom potential closure returns its cached array for identical points, which the molecular sum then accumulates into. The displaced/two-centre sub-check now evaluates the returned potential twice at the same points: identical numbers, first array unchanged."),
+ 'C08_sph_harm_last_call_memo': ('5', "one-entry memo of the last harmonics call keyed by l_max and the identity of the angle arrays. `values` now calls both implementations through angle arrays that held other angles in an earlier call with the same l_max and were re-filled in place (and asserts the arrays stay unmodified)."),
+ 'C13_interpolate_zspline_memo': ('5', "z-splines memoised on the grid, dropped only when `values` is a different array *object*. The decoy call now uses the same values array, which is then re-filled in place with the data under test."),
+ 'C14_moments_block_tail': ('5', "points processed in blocks of 2^19 with a floor instead of a ceiling: the tail of grids with more than 524 288 points is dropped. Generated grids had at most 24 points; three pinned molecular-size grids (600 011, 524 295, 300 007 points) were added — a directed addition, the generator does not reach such sizes."),
+ 'C16_bvp_zero_boundary': ('5', "`if not boundary:` treats an explicit `boundary=0.0` as not given. Only the natural value Q/Y00 was ever passed; `bvp_centred` now also passes 0, 0.5 and -0.25 times the natural value where the grid is cut at 10 or 50 bohr (origin included), with the derived shift (B·Y00 − Q)/r_c in the reference."),
+ 'C17_s_inplace_radius': ('5', "`coulomb_gaussian_s` overwrites r = 0 entries of the caller's float64 array with a dummy radius. Array-mode calls in `pointwise`, `switch` and `poisson_fd` now share one array per list of radii across all calls of a case and assert it stays as given."),
+ 'C05_points_alias_origin': ('5', "`AtomGrid.points` returns the internal array when the centre is the origin; a caller editing it in place moves the grid. `structure` now shifts the array it was handed by `.points` and demands an unchanged grid."),
+ 'C12_sizes_converted_in_place': ('5', "the size→degree converter overwrites the caller's int64 sizes array with degrees. `sequences` now asserts that request arrays still hold what the caller wrote and resolves the same array object a second time (converter and AtomGrid)."),
 }
 def main():
     p = os.path.join(HERE, 'DESIGN.md'); s = open(p).read()
@@ -57,14 +64,14 @@ def main():
             c = [x.strip() for x in l.strip('|\n').split('|')]; res[c[1]] = (c[3], c[4])
     out = ["\n\n## 9. Sensitivity: independently seeded changes and mutants\n",
            f"### 9.1 Independently seeded changes ({len(rows)}; each confirmed: demo passes without / fails with the change, unedited suite 598 passed with it)\n",
-           "Written by fresh sub-agents from the property text alone (section 4), in four rounds (rounds 2–4 were told which ideas had been used, nothing else; rounds 3 and 4 were asked for the hard kinds: state carried between calls, rare input representations, narrow numeric regimes, cooperating edits). `verdict` is the owning *quick* check at seed 1 on the current machinery (`tools/seeded_all.sh`; all labels in `seeded/RESULTS.md`); `first` says whether the first version of the check caught it.\n",
+           "Written by fresh sub-agents from the property text alone (section 4), in five rounds (rounds 2–5 were told which ideas had been used, nothing else; rounds 3–5 were asked for the hard kinds: state carried between calls, rare input representations, narrow numeric regimes, cooperating edits). `verdict` is the owning *quick* check at seed 1 on the current machinery (`tools/seeded_all.sh`; all labels in `seeded/RESULTS.md`); `first` says whether the first version of the check caught it.\n",
            "| change | needs, in order to manifest | verdict | first | first sub-check:label |", "|---|---|---|---|---|"]
     for name, needs in rows:
         v, lab = res.get(name, ('?', ''))
         first = f"MISSED (round {MISSED[name][0]})" if name in MISSED else 'caught'
         out.append(f"| {name} | {needs} | {v} | {first} | {lab.split(' ')[0] if lab else ''} |")
     nm = len(MISSED)
-    out.append(f"\n**{nm} of the {len(rows)} were missed by the first version of the owning check** (round 1: 2 of 37, round 2: 10 of 40, rounds 3 and 4 — asked for the hard kinds — 11 of 20 each). Each miss was turned into a stronger generator or oracle, never into a special case for that patch, and all {len(rows)} are now CAUGHT by the quick tier:\n")
+    out.append(f"\n**{nm} of the {len(rows)} were missed by the first version of the owning check** (round 1: 2 of 37, round 2: 10 of 40, rounds 3 and 4 — asked for the hard kinds — 11 of 20 each, round 5: 7 of 20). Each miss was turned into a stronger generator or oracle, never into a special case for that patch, and all {len(rows)} are now CAUGHT by the quick tier:\n")
     for name, (rnd, txt) in MISSED.items():
         out.append(f"* `{name}` — {txt}")
     out.append("\nThe lesson that recurred: checks that build a fresh object for every call cannot see state carried between calls. The history dimension (same object called again, arrays re-filled in place, arguments edited between calls, several methods/elements in one process) was added to C01–C04, C09, C13, C14, C17 as cheap extra calls inside each case, in addition to the dedicated history properties C10 and C19.\n")
